@@ -186,6 +186,28 @@ QNode(S, v, qn, qt, k, D) ==              \* query_node
 ConcreteAnswer(S, v, qn, qt, D) ==
   IF qn = Apex THEN QRrsets(S, v, Apex, qn, qt, D) ELSE QChildren(S, v, qn, qt, 0, D)
 
+\* ---- names as the API hands them over: absolute, in the caller's spelling.
+\* mod.rs util::rel_name_rev_iter (ZoneApex::prepare_name for every query and
+\* every ZoneBuilder insert, ZoneUpdater for every record owner): walk the apex
+\* labels from the right, each must equal (Label's ==, which ignores ASCII case)
+\* the query name's label at that place; what is left of the query name is the
+\* relative name.  The root label both names end with is implicit here.
+RECURSIVE PrepFrom(_, _, _)
+PrepFrom(apex, full, k) ==                 \* k apex labels matched so far
+  IF k = Len(apex) THEN [ok |-> TRUE, rel |-> SubSeq(full, 1, Len(full) - k)]
+  ELSE IF k >= Len(full) THEN [ok |-> FALSE]                       \* qname.next() = None
+  ELSE IF ~LabelEq(apex[Len(apex) - k], full[Len(full) - k]) THEN [ok |-> FALSE]
+  ELSE PrepFrom(apex, full, k + 1)
+PrepareName(apex, full) == PrepFrom(apex, full, 0)
+\* children: HashMap<OwnedLabel, _> -- Hash and Eq of OwnedLabel ignore ASCII
+\* case, so a node is found under the lower-cased spelling of its labels
+NodeKey(rel) == LowerName(rel)
+\* ReadableZone::query(qname, qtype) as called: `apex` is the spelling the zone
+\* was created with, `full` the query name as spelled by the caller
+QueryAbs(S, v, apex, full, qt, D) ==
+  LET p == PrepareName(apex, full)
+  IN IF ~p.ok THEN {OutOfZone} ELSE ConcreteAnswer(S, v, NodeKey(p.rel), qt, D)
+
 \* ReadZone::walk: the set of records handed to the callback
 RECURSIVE WalkNode(_, _, _, _)
 WalkNode(S, v, n, D) ==
@@ -312,6 +334,15 @@ ZfInsert(r) ==
   /\ act' = [a |-> "ZfInsert", n |-> r[1], t |-> r[2], x |-> r[3]]
   /\ UNCHANGED <<store, current, allv, wlock, wst, wkind, wnv, dirty, readers, phase, committed, pend, nops, snap>>
 
+\* a record the zone file does not admit -- it conflicts with what its owner
+\* holds already, or it is of another class than the zone: insert() returns an
+\* error and the zone file is as before
+ZfReject(r, cls) ==
+  /\ phase = "zonefile" /\ r \notin zf
+  /\ (cls = "IN" => ~Admits(zf, r))
+  /\ act' = [a |-> "ZfReject", n |-> r[1], t |-> r[2], x |-> r[3], cls |-> cls]
+  /\ UNCHANGED <<store, current, allv, wlock, wst, wkind, wnv, dirty, readers, phase, zf, committed, pend, nops, snap>>
+
 Build ==
   /\ phase = "zonefile"
   /\ phase' = "live" /\ store' = BuildStore(zf)
@@ -354,8 +385,9 @@ SetRRset(P, n, t, vals) == (P \ RRset(P, n, t)) \cup {Rec(n, t, x) : x \in vals}
 W_UpdateChild(w, n) ==                     \* WritableZoneNode::update_child down to n
   /\ Writing(w, "W") /\ n \in NodeNames /\ n \notin store.nodes
   /\ Wrote(w, EnsurePath(store, wnv[w], n), pend, [a |-> "W_UpdateChild", w |-> w, n |-> n])
-W_UpdateRrset(w, n, t, vals) ==            \* update_rrset (n exists)
-  /\ Writing(w, "W") /\ n \in store.nodes \cup {Apex} /\ vals # {} /\ Touches(n, t)
+W_UpdateRrset(w, n, t, vals) ==            \* update_rrset (n exists); "replace the RRset by
+                                           \* the given one": an EMPTY RRset deletes it
+  /\ Writing(w, "W") /\ n \in store.nodes \cup {Apex} /\ Touches(n, t)
   /\ Wrote(w, UpdateRrset(store, wnv[w], n, t, vals), SetRRset(pend, n, t, vals),
            [a |-> "W_UpdateRrset", w |-> w, n |-> n, t |-> t, xs |-> vals])
 W_RemoveRrset(w, n, t) ==
@@ -470,11 +502,12 @@ WriteOp(w) ==
        \/ \E t \in Types :
             \/ W_RemoveRrset(w, n, t)
             \/ \E x \in ValsOf(t) : W_UpdateRrset(w, n, t, {x})
+            \/ W_UpdateRrset(w, n, t, {})
             \/ Cardinality(ValsOf(t)) > 1 /\ W_UpdateRrset(w, n, t, ValsOf(t))
             \/ \E x \in ValsOf(t) : U_AddRecord(w, n, t, x) \/ U_DeleteRecord(w, n, t, x)
 
 Next ==
-  \/ \E r \in ZfRecs : ZfInsert(r)
+  \/ \E r \in ZfRecs : ZfInsert(r) \/ ZfReject(r, "IN") \/ ZfReject(r, "CH")
   \/ Build
   \/ \E w \in Writers :
        \/ \E kind \in OpFamilies \cap {"W", "U"} : AcquireWriteLock(w, kind)
